@@ -42,6 +42,15 @@ def main(tier, replay):
                 continue
             if i % 3 == 1:
                 tank_pump(rnd, s)
+            if i % 7 == 3:
+                # a leak at the bottom of a tank (it keeps draining the tank when the links are shut at the minimum level)
+                tk = rnd.choice([nd for nd in s["nodes"] if nd["type"] == "T"])
+                tk["leak"] = {"on": True, "area": netgen.rgrid(rnd, 0.002, 0.01, 0.002), "cd": 0.75, "start": rnd.choice([0, s["H"]]), "end": -1}
+            if i % 6 == 4:
+                # history: the model was simulated before with other points on the same volume curves
+                pre = {nd["name"]: [[p[0], p[1] * 0.5] for p in nd["vcurve"]] for nd in s["nodes"] if nd["type"] == "T" and nd["vcurve"]}
+                if pre:
+                    s["prehist_vcurve"] = pre
             if i % 5 == 2:
                 for nd in s["nodes"]:
                     if nd["type"] == "T":
